@@ -14,6 +14,7 @@ References
 import sys
 from cnfgen.formula.basecnf import BaseCNF
 from cnfgen.formula.baseopb import BaseOPB
+from cnfgen.utils.parsedimacs import _comment_text
 
 
 def to_opb_file(formula, fileorname=None,
@@ -57,14 +58,16 @@ def to_opb_file(formula, fileorname=None,
     if export_header:
         # remove non ascii text
         for field in formula.header:
-            tmp = "* {}: {}\n".format(field, formula.header[field])
+            tmp = "* {}: {}\n".format(_comment_text(field),
+                                      _comment_text(formula.header[field]))
             tmp = tmp.encode('ascii', errors='replace').decode('ascii')
             output.write(tmp)
         output.write("*\n")
 
     if export_varnames:
         for varid, label in enumerate(formula.all_variable_labels(), start=1):
-            output.write("* varname x{0} {1}\n".format(varid, label))
+            output.write("* varname x{0} {1}\n".format(varid,
+                                                       _comment_text(label)))
         output.write("*\n")
 
     # Clauses
